@@ -30,6 +30,7 @@ type Engine struct {
 	specFuncs     map[string]*SpecFunc
 	pkgNames      map[string]string
 	loadErrors    []string
+	tiBin         string
 }
 
 func loadEngine(repo string, overlay map[string][]byte) (*Engine, error) {
@@ -83,6 +84,7 @@ func loadEngine(repo string, overlay map[string][]byte) (*Engine, error) {
 	if err := e.loadContracts(); err != nil {
 		return nil, err
 	}
+	specFuncsForSplit = e.specFuncs
 	return e, nil
 }
 
@@ -126,6 +128,7 @@ func (e *Engine) typeByString(s string) types.Type {
 }
 
 type FuncResult struct {
+	VC          *VC
 	Func        string
 	Obs         []*Obligation
 	Notes       []string
@@ -145,10 +148,11 @@ func (e *Engine) verifyFunc(name string, forceSafety bool) (res *FuncResult) {
 	sc := newScript()
 	te := newTypeEnv(sc)
 	he := newHeapEnv(sc, te)
-	vc := &VC{eng: e, sc: sc, te: te, he: he, top: fn, counters: map[string]int{}}
+	vc := &VC{eng: e, sc: sc, te: te, he: he, top: fn, counters: map[string]int{}, grefs: map[string]int{}}
 	vc.contract = e.contracts[name]
 	vc.safety = forceSafety || (vc.contract != nil && vc.contract.Safe)
 	res.Script = sc
+	res.VC = vc
 	defer func() {
 		res.Obs = sc.obs
 		res.Notes = vc.notes
@@ -172,15 +176,19 @@ func (e *Engine) verifyFunc(name string, forceSafety bool) (res *FuncResult) {
 	f.curB = fn.Blocks[0]
 	f.reach[f.curB] = "true"
 	f.cur = st
+	sc.assume(app(">=", f.frontier(), "0"))
 	for i, p := range fn.Params {
 		if params[i].addr == nil {
-			sc.assume(te.typeInv(p.Type(), params[i].t, 0))
+			sc.assume(f.tinv(p.Type(), params[i].t))
 		}
 	}
 	for i, fv := range fn.FreeVars {
 		v := vc.paramVal(fmt.Sprintf("free%d:%s", i, fv.Name()), fv.Type())
 		f.vals[fv] = v
 	}
+	vc.entry = st.clone()
+	// terms describing the entry state, for counterexample replay
+	vc.plan = vc.replayPlan()
 	vc.entry = st.clone()
 	if ct := vc.contract; ct != nil {
 		env := f.specEnv(st, nil, nil)
